@@ -5,6 +5,8 @@ import (
 	"fmt"
 	"math/rand"
 	"os"
+	"sync"
+	"sync/atomic"
 	"time"
 
 	"golang.org/x/crypto/ocsp"
@@ -290,6 +292,42 @@ func C02(c *vk.Ctx) {
 		c.Infra("the validator-level part was replayed on %d cells only: it would be vacuous", hubWalks)
 	}
 	c.Set("transitions", trans)
+	// many lookups truly in parallel (no gate): cA's responder says good, cB's says revoked, nothing is cached. The specification's
+	// answer for every single lookup is the one it yields alone (OcspFlight.tla: OwnAnswerOnly); a revoked certificate accepted, or
+	// a lenient lookup denied, under this load is the property failing for a particular interleaving.
+	{
+		w := newOcspWorld(ocspCfg(false, 0, "absent", []string{"good"}, []string{"revoked"}), c.Seed*31+7)
+		var wg sync.WaitGroup
+		var acceptedRevoked, deniedGood atomic.Int64
+		per := c.Pick(150, 1500)
+		for g := 0; g < 12; g++ {
+			cert := []string{"cA", "cB"}[g%2]
+			wg.Add(1)
+			go func() {
+				defer wg.Done()
+				for k := 0; k < per; k++ {
+					st, err := w.checkers["v1"].IsRevoked(w.leaves[cert].Cert, w.chains[cert])
+					revoked := err == nil && st != nil && st.Revoked
+					if cert == "cB" && !revoked {
+						acceptedRevoked.Add(1)
+					}
+					if cert == "cA" && (err != nil || revoked) {
+						deniedGood.Add(1)
+					}
+				}
+			}()
+		}
+		wg.Wait()
+		w.close()
+		c.Eval("parallel-lookups")
+		walks++
+		if n := acceptedRevoked.Load(); n > 0 {
+			c.Violation("parallel:revoked-accepted", fmt.Sprintf("%d of %d parallel lookups of a certificate whose responder answers an authentic 'revoked' were not rejected (lenient instance, 12 goroutines, no cache)", n, 6*per), map[string]any{"lookups": 12 * per})
+		}
+		if n := deniedGood.Load(); n > 0 {
+			c.Violation("parallel:good-denied", fmt.Sprintf("%d of %d parallel lookups of a certificate whose responder answers an authentic 'good' were denied", n, 6*per), map[string]any{"lookups": 12 * per})
+		}
+	}
 	// the same three properties while other queries are in flight at a responder shared by two issuers (OcspFlight.tla)
 	walks += ocspFlight(c, "C02", rand.New(rand.NewSource(c.Seed+2)))
 	c.Set("traces_validated_against_impl", int64(walks))
@@ -331,7 +369,7 @@ func predC05(c *vk.Ctx, o *ocspObs) {
 	}
 }
 
-var c05NoAnswer = []string{"stranger", "strangerEmbedded", "ownCert", "ownCertBare", "ownCertAsIssuer", "delegNoEku", "delegNoEkuBare", "delegNoEkuAsIssuer", "sibling", "otherSerial", "errStatus", "http500", "garbage", "wrongContent"}
+var c05NoAnswer = []string{"stranger", "strangerEmbedded", "ownCert", "ownCertBare", "ownCertAsIssuer", "delegNoEku", "delegNoEkuBare", "delegNoEkuAsIssuer", "otherDelegBare", "otherDelegEmbedded", "sibling", "otherSerial", "errStatus", "http500", "garbage", "wrongContent"}
 
 // C05 — OCSP authenticity.
 func C05(c *vk.Ctx) {
